@@ -275,11 +275,23 @@ fn collect_fns(file: &syn::File, out: &mut HashMap<String, Vec<FnDef>>) {
     }
 }
 
+/// the `match` over `RunUnitRequest` with what surrounds it in the block it stands in
+struct Found {
+    m: ExprMatch,
+    /// tokens of the enclosing block before / after the match
+    before: TokenStream,
+    after: TokenStream,
+    /// what precedes the enclosing block in its parent (the header of the `select!` branch)
+    header: String,
+}
+
 /// outermost `match` expressions of a token stream (macro bodies included) whose arm patterns
 /// mention `RunUnitRequest`
-fn request_matches(ts: TokenStream, out: &mut Vec<ExprMatch>) {
+fn request_matches(ts: TokenStream, header: &str, out: &mut Vec<Found>) {
     let toks: Vec<TokenTree> = ts.into_iter().collect();
     let mut i = 0;
+    // start of the tokens that lead up to the next brace group (a select! branch header)
+    let mut lead = 0;
     while i < toks.len() {
         if let TokenTree::Ident(id) = &toks[i] {
             if id == "match" {
@@ -300,8 +312,14 @@ fn request_matches(ts: TokenStream, out: &mut Vec<ExprMatch>) {
                 if closed {
                     if let Ok(m) = syn::parse2::<ExprMatch>(piece) {
                         if m.arms.iter().any(|a| norm(&a.pat).contains("RunUnitRequest")) {
-                            out.push(m);
+                            out.push(Found {
+                                m,
+                                before: toks[..i].iter().cloned().collect(),
+                                after: toks[j + 1..].iter().cloned().collect(),
+                                header: header.to_owned(),
+                            });
                             i = j + 1;
+                            lead = i;
                             continue;
                         }
                     }
@@ -309,10 +327,55 @@ fn request_matches(ts: TokenStream, out: &mut Vec<ExprMatch>) {
             }
         }
         if let TokenTree::Group(g) = &toks[i] {
-            request_matches(g.stream(), out);
+            let mut h: TokenStream = toks[lead..i].iter().cloned().collect();
+            if let Some(TokenTree::Punct(p)) = toks.get(lead) {
+                if p.as_char() == ',' {
+                    h = toks[lead + 1..i].iter().cloned().collect();
+                }
+            }
+            request_matches(g.stream(), &h.to_string().replace(' ', ""), out);
+            if g.delimiter() == Delimiter::Brace {
+                lead = i + 1;
+            }
         }
         i += 1;
     }
+}
+
+/// `loop { .. }` bodies that contain the request match: each must consist of the `select!` alone
+fn request_loops(ts: TokenStream, out: &mut Vec<TokenStream>) {
+    let toks: Vec<TokenTree> = ts.into_iter().collect();
+    for i in 0..toks.len() {
+        if let TokenTree::Group(g) = &toks[i] {
+            let is_loop = i > 0 && matches!(&toks[i - 1], TokenTree::Ident(x) if x == "loop");
+            if is_loop && g.delimiter() == Delimiter::Brace && g.stream().to_string().contains("RunUnitRequest") {
+                out.push(g.stream());
+            } else {
+                request_loops(g.stream(), out);
+            }
+        }
+    }
+}
+
+/// the loop body is `tokio::select! { .. }` (optionally followed by `;`) and nothing else
+fn only_select(body: TokenStream) -> bool {
+    let toks: Vec<TokenTree> = body.into_iter().collect();
+    let mut k = 0;
+    while k < toks.len() && !matches!(&toks[k], TokenTree::Punct(p) if p.as_char() == '!') {
+        match &toks[k] {
+            TokenTree::Ident(_) => {}
+            TokenTree::Punct(p) if p.as_char() == ':' => {}
+            _ => return false,
+        }
+        k += 1;
+    }
+    if k == 0 || k + 1 >= toks.len() || !matches!(&toks[k - 1], TokenTree::Ident(x) if x == "select") {
+        return false;
+    }
+    if !matches!(&toks[k + 1], TokenTree::Group(g) if g.delimiter() == Delimiter::Brace) {
+        return false;
+    }
+    toks[k + 2..].iter().all(|t| matches!(t, TokenTree::Punct(p) if p.as_char() == ';'))
 }
 
 /// the handler blocks of `select!` branches of the form `_ = &mut <ident> => { .. }`
@@ -370,7 +433,7 @@ struct Tr<'a> {
 const PURE_METHODS: &[&str] = &[
     "snapshot", "snapshot_in_progress", "checked_sub", "saturating_sub", "unwrap_or_default", "unwrap_or",
     "kind", "packet", "waiting_on_message", "as_ref", "as_mut", "clone", "is_zero", "is_some", "is_none",
-    "then_some", "elapsed", "as_deref", "copied", "cloned", "is_done", "to_owned", "as_secs", "as_millis",
+    "then_some", "expect", "elapsed", "as_deref", "copied", "cloned", "is_done", "to_owned", "as_secs", "as_millis",
 ];
 const LOG_MACROS: &[&str] = &["debug", "trace", "info", "warn", "error", "debug_assert", "debug_assert_eq"];
 
@@ -1216,8 +1279,8 @@ fn main() {
                 continue;
             }
         };
-        let mut ms = Vec::new();
-        request_matches(f.block.to_token_stream(), &mut ms);
+        let mut ms: Vec<Found> = Vec::new();
+        request_matches(f.block.to_token_stream(), "", &mut ms);
         // the scopes the arms run in
         let mut scopes: Vec<Scope> = Vec::new();
         if lp.func == "terminate_child" {
@@ -1269,13 +1332,52 @@ fn main() {
             emit_loop(lp.field, &arms, &mut fields);
             continue;
         }
+        // nothing but the match handles a request: the select! branch that reads the channel has the
+        // expected header, its block is `let`s without effects followed by the match, and the loop
+        // body is the select! alone
+        let context = (|| -> Result<(), String> {
+            let want = if lp.func == "detect_fd_leaks" { ",if!child_acc.fds.is_done()" } else { "" };
+            let h = &ms[0].header;
+            let ok_header = h
+                .strip_suffix("=>")
+                .and_then(|x| x.strip_suffix(want))
+                .and_then(|x| x.strip_suffix("=req_rx.recv()"))
+                .is_some_and(|x| !x.is_empty() && x.chars().all(|c| c.is_alphanumeric() || c == '_'));
+            if !ok_header {
+                return Err(format!("the select! branch that holds the request match is `{h}`; expected `<name>=req_rx.recv(){want}=>`"));
+            }
+            if !ms[0].after.clone().into_iter().all(|t| matches!(&t, TokenTree::Punct(p) if p.as_char() == ';')) {
+                return Err(format!("statements follow the request match: `{}`", norm(&ms[0].after)));
+            }
+            let before = ms[0].before.clone();
+            let blk: Block = syn::parse2(quote::quote!({ #before }))
+                .map_err(|e| format!("cannot read what precedes the request match (`{}`): {e}", norm(&ms[0].before)))?;
+            let mut tr = Tr { fns: &fns, inline_depth: 0, stop_at_loop: false };
+            let mut acts = Vec::new();
+            let mut sc = base_scope(lp.clocks);
+            tr.stmts(&blk.stmts, &mut sc, &mut acts).map_err(|e| format!("before the request match: {e}"))?;
+            if !acts.is_empty() || blk.stmts.iter().any(|s| !matches!(s, Stmt::Local(_))) {
+                return Err(format!("statements with an effect precede the request match: `{}`", norm(&ms[0].before)));
+            }
+            let mut bodies = Vec::new();
+            request_loops(f.block.to_token_stream(), &mut bodies);
+            if bodies.len() != 1 || !only_select(bodies[0].clone()) {
+                return Err("the wait loop's body is not a single select!".to_owned());
+            }
+            Ok(())
+        })();
+        if let Err(e) = context {
+            whole(e, &mut errors, &mut arms);
+            emit_loop(lp.field, &arms, &mut fields);
+            continue;
+        }
         for k in KINDS {
             let mut results: Vec<Result<Vec<Act>, String>> = Vec::new();
             for sc in scopes.iter_mut() {
                 let mut tr = Tr { fns: &fns, inline_depth: 0, stop_at_loop: false };
                 let mut acts = Vec::new();
                 let depth = sc.frames.len();
-                let r = tr.match_on(&ms[0], &request(k.label), sc, &mut acts);
+                let r = tr.match_on(&ms[0].m, &request(k.label), sc, &mut acts);
                 sc.frames.truncate(depth);
                 results.push(r.map(|_| acts));
             }
